@@ -75,7 +75,7 @@ def main():
         # (2) self-validation of the rules on the current tree: every breaking variant of the kit must be reported by the
         # named rule and every benign variant must stay silent.  Only meaningful when the tree itself passes; the result is
         # evidence about the checker, never a property violation.
-        if not ck.failed() and not a.replay:
+        if not engine.split_known(ck)[0] and not a.replay:
             import variants
             jobs = int(os.environ.get("VERIF_JOBS", "8"))
             n_ok, n_bad, lines, n_skip = variants.run_kit(pid, verbose=False, jobs=jobs)
@@ -97,7 +97,9 @@ def main():
         return 0
     cmd = "./check %s --tier %s" % (pid, a.tier)
     if a.no_evidence:
-        bad = ck.failed()
+        bad, listed, _k = engine.split_known(ck)
+        for o in listed:
+            print("  KNOWN-FINDING %s %s" % (o.rule, o.key))
         for o in bad:
             print("  [%s] %s %s %s: %s" % (o.status, o.rule, o.where, o.key, o.reason))
         print("%s obligations=%d failed=%d" % (pid, len(ck.obs), len(bad)))
